@@ -35,6 +35,8 @@ class Contract:
         self.allocates = d.get("allocates", True)
         self.ghost_pre = d.get("ghost_pre", {})        # name -> expr, evaluated in the pre-state, usable in ensures
         self.param_assume = d.get("assume_params", True)
+        self.uses_lemmas = list(d.get("uses_lemmas", []))   # proved lemmas available as quantified facts inside this function
+        self.uses_marks = d.get("uses_marks", False)     # the function works on the splitter's ghost mark model (A-RE axioms apply)
         self.for_callers = d.get("for_callers")          # variant used only when called from these functions (interface view)
         self.virtual = d.get("virtual", False)          # abstract contract used for every override (behavioural subtyping assumed)
 
@@ -290,6 +292,8 @@ class ContractMixin:
 
     # ---------------------------------------------------------------- lemmas (statements about spec functions)
     def verify_lemma(self, name, d):
+        """A statement about specification functions.  With `induction = (var, lower)` it is proved by induction on
+        the integer `var` downwards to `lower`: the induction hypothesis is the lemma at var - 1."""
         from .symex import Frame
         self.cur_fn = "lemma:" + name
         fr = Frame(None, "<spec>")
@@ -301,7 +305,33 @@ class ContractMixin:
         st.old = (st.heap.snapshot(), dict(st.env), st.alloc)
         for text in d.get("requires", []):
             st.assume(self.spec_bool(text, st, fr, "assume"))
+        if d.get("induction"):
+            var, lower = d["induction"]
+            s2 = st.copy()
+            s2.frames = [dict(st.env)]
+            s2.env[var] = SInt(st.env[var].t - 1)
+            req = [self.spec_bool(t, s2, fr, "assume") for t in d.get("requires", [])]
+            lo = self.spec_value(lower, st, fr).t
+            ih = z3.Implies(z3.And(st.env[var].t - 1 >= lo, *req), self.spec_bool(d["ensures"], s2, fr, "assume"))
+            st.assume(ih)
         self.oblige_spec(st, fr, "lemma", name, d["ensures"], props=tuple(d.get("props", ())))
+
+    def lemma_axiom(self, name, d):
+        """the proved lemma as a quantified fact (for the functions that cite it)"""
+        from .symex import Frame
+        fr = Frame(None, "<spec>")
+        st = State()
+        st.spec = True
+        consts = []
+        for v, kind in d.get("vars", {}).items():
+            c = z3.Const(f"lem_{name}_{v}".replace(".", "_").replace("-", "_"), kind_sort(kind))
+            consts.append(c)
+            st.env[v] = from_sort(kind, c)
+        st.old = (st.heap.snapshot(), dict(st.env), st.alloc)
+        req = [self.spec_bool(t, st, fr, "assume") for t in d.get("requires", [])]
+        ens = self.spec_bool(d["ensures"], st, fr, "assume")
+        body = z3.Implies(z3.And(req) if req else z3.BoolVal(True), ens)
+        return z3.ForAll(consts, body) if consts else body
 
     # ---------------------------------------------------------------- verification of one function
     def verify_function(self, fi, c):
@@ -330,6 +360,8 @@ class ContractMixin:
         if a.kwarg:
             st.env[a.kwarg.arg] = SConstSeq([], "dict")
         # ghost pre-state values
+        for ln in c.uses_lemmas:
+            st.assume(self.lemma_axiom(ln, self.lemmas[ln]))
         for rname, text in list(c.requires.items()) + list(c.assumes.items()):
             st.assume(self.spec_bool(text, st, fr, "assume"))
         for rname in c.assumes:
